@@ -24,7 +24,7 @@ type c13Case struct {
 func init() {
 	engine.Register(&engine.Check{
 		ID: "C13", Level: "exploration",
-		Rule:        "every sequence (order matters to the scan) of 1..6 (quick) / 1..7 (thorough) points on the 3x3 grid and (thorough) every set of <=6 points on the 4x4 grid; layouts XY/XYZ/XYM/XYZM with a unique tag in the extra ordinates of every input point; the >50-point path: each small input padded to 51, 52 and 60 points with copies of one of its own points, with all of its own points in rotation, and with a 4x4 filler grid; every sequence of 4..5 (thorough 6) points on the 6x2 and 2x6 grids (long collinear runs on the lowest row / leftmost column in every input order); plus 51..200-point inputs on lattices from 5x5 (maximally degenerate) to 2^20; plus a 64-point block with every pair of outliers from a half-integer ring around it; ConvexHull (MultiPoint) and ConvexHullFlat. Oracle = strict monotone-chain hull in rational arithmetic: result kind (Point / 2-point LineString / Polygon) from the number of distinct, non-collinear inputs; vertex set = exact extreme points; each vertex bit-equal to an input coordinate incl. tags; ring closed, one orientation for all inputs, no collinear vertex; input slice incl. spare capacity unchanged. distinct_nontrivial = distinct inputs with >=2 distinct points Also: 4-5 point sets whose directions from the lowest point differ by a cross product of 1 or 2 at magnitudes up to 2^20, every permutation x 8 symmetries x 2 translations.",
+		Rule:        "every sequence (order matters to the scan) of 1..6 (quick) / 1..7 (thorough) points on the 3x3 grid and (thorough) every set of <=6 points on the 4x4 grid; layouts XY/XYZ/XYM/XYZM with a unique tag in the extra ordinates of every input point; the >50-point path: each small input padded to 51, 52 and 60 points with copies of one of its own points, with all of its own points in rotation, and with a 4x4 filler grid; every sequence of 4..5 (thorough 6) points on the 6x2 and 2x6 grids (long collinear runs on the lowest row / leftmost column in every input order); plus 51..200-point inputs on lattices from 5x5 (maximally degenerate) to 2^20; plus 51..200 points in convex position (parabola arc, lattice convex chain) listed ascending, descending, outside-in and interleaved under 8 symmetries; plus a 64-point block with every pair of outliers from a half-integer ring around it; ConvexHull (MultiPoint) and ConvexHullFlat. Oracle = strict monotone-chain hull in rational arithmetic: result kind (Point / 2-point LineString / Polygon) from the number of distinct, non-collinear inputs; vertex set = exact extreme points; each vertex bit-equal to an input coordinate incl. tags; ring closed, one orientation for all inputs, no collinear vertex; input slice incl. spare capacity unchanged. distinct_nontrivial = distinct inputs with >=2 distinct points Also: 4-5 point sets whose directions from the lowest point differ by a cross product of 1 or 2 at magnitudes up to 2^20, every permutation x 8 symmetries x 2 translations.",
 		Run:         c13Run,
 		Replay:      func(c *engine.Ctx, kind string, raw json.RawMessage) { c13Exec(c, decodeCase[c13Case](raw)) },
 		Assumptions: []string{"integer / half-integer grid inputs (all predicates exact)"},
@@ -358,6 +358,77 @@ func c13Run(c *engine.Ctx) {
 		}
 		c13Exec(c, c13Case{Pts: pts, Layout: layouts[i%4], Via: "flat"})
 		c13Exec(c, c13Case{Pts: pts, Layout: layouts[(i+1)%4], Via: "multipoint"})
+	})
+	// many points in convex position (every one of them a hull vertex, so the interior-point
+	// reduction keeps them all): arcs of the parabola y = x^2 and of a lattice "circle", 51..200
+	// points, listed ascending, descending, from the outside in, and interleaved; 8 symmetries
+	type arcJob struct {
+		n, order, sym, shape int
+	}
+	var arcs []arcJob
+	for _, n := range []int{51, 64, 65, 66, 100, 130, 200} {
+		for order := 0; order < 4; order++ {
+			for sym := 0; sym < 8; sym++ {
+				for shape := 0; shape < 2; shape++ {
+					arcs = append(arcs, arcJob{n, order, sym, shape})
+				}
+			}
+		}
+	}
+	c.Note("convex_position_inputs", len(arcs))
+	c.Parallel(len(arcs), func(i int) {
+		j := arcs[i]
+		base := make([][2]float64, j.n)
+		for k := range base {
+			x := float64(k)
+			if j.shape == 0 {
+				base[k] = [2]float64{x, x * x}
+			} else {
+				// convex chain with slopes 1, 2, 3, ... then mirrored: a lattice polygon
+				base[k] = [2]float64{x, x * (x + 1) / 2}
+				if k%2 == 1 {
+					base[k] = [2]float64{-x, x * (x + 1) / 2}
+				}
+			}
+		}
+		idx := make([]int, j.n)
+		for k := range idx {
+			switch j.order {
+			case 0:
+				idx[k] = k
+			case 1:
+				idx[k] = j.n - 1 - k
+			case 2: // outside in
+				if k%2 == 0 {
+					idx[k] = k / 2
+				} else {
+					idx[k] = j.n - 1 - k/2
+				}
+			default: // stride 7 (coprime to the counts used)
+				idx[k] = (k*7 + 3) % j.n
+			}
+		}
+		if j.order == 3 && (j.n%7 == 0) {
+			for k := range idx {
+				idx[k] = (k*11 + 3) % j.n
+			}
+		}
+		var pts []ref.F
+		for _, k := range idx {
+			x, y := base[k][0], base[k][1]
+			if j.sym&1 != 0 {
+				x = -x
+			}
+			if j.sym&2 != 0 {
+				y = -y
+			}
+			if j.sym&4 != 0 {
+				x, y = y, x
+			}
+			pts = append(pts, ref.F(x), ref.F(y))
+		}
+		c.Count("convex_position_cases", 1)
+		c13Exec(c, c13Case{Pts: pts, Layout: layouts[i%4], Via: "flat"})
 	})
 	// few points whose directions from the lowest point differ by a cross product of +-1 or +-2
 	// at magnitudes up to 2^20 (lattice neighbours (n,n-1),(n+1,n); consecutive Fibonacci pairs):
